@@ -296,7 +296,15 @@ func VerifC02Handlers() {
 	}
 	want += "\" class=\"" + cls.ClassName() + " plain\">b</button>"
 	// second use in the same render: the definition is not repeated, the call is
+	cls2 := boxed("2px")
 	tail := "<i onclick=\"" + cs.Call + "\">again</i>"
+	tail2 := "<style type=\"text/css\">" + string(cls2.(templ.ComponentCSSClass).Class) + "</style><b class=\"btn " + cls2.ClassName() + " large\">c</b>"
 	symCover("handlers")
-	checkPat(Handlers(on, msg), "script and css hoisting", lit(want), opt, lit(tail))
+	checkPat(Handlers(on, msg), "script and css hoisting", lit(want), opt, lit(tail), opt, lit(tail2))
+}
+
+func VerifC02Literals() {
+	s := symString("s", symParam("N"))
+	symCover("literals")
+	check(Literals(s), "<p>&lt;b&gt;&amp;"+esc(s)+"</p><q>a\ufeffb</q>", "literal text expressions and special characters in static text")
 }
